@@ -23,7 +23,7 @@ CHECKS = {
    note=SC_NOTE),
  "C04": dict(level="exploration", design="5/C04",
    technique="deterministic simulation family S-C: the text-move applier, the generator chain and the referee driven through the same histories; invariant after every prefix plus text round trip of every generated move",
-   text="The applier (play_out_position/make_move through the H5 wrappers) is stepped next to the generator chain and the referee over every prefix of generated games up to 200 plies; position, hash and generator agreement are checked after each move, and every generated move is printed and replayed. The same clause is observed through the real command loop: simulated sessions of 1-4 position commands (same game again, prefix, continuation, another game, the same move list from a different start) with the probed board compared against the referee.",
+   text="The applier (play_out_position/make_move through the H5 wrappers) is stepped next to the generator chain and the referee over every prefix of generated games up to 200 plies; position, hash and generator agreement are checked after each move, and every generated move is printed and replayed. The same clause is observed through the real command loop: simulated sessions of 1-4 position commands (same game again, prefix, continuation, another game, the same move list from a different start, the previous FEN with one field changed, a game of 1030-1400 plies) with the probed board compared against the referee.",
    note=SC_NOTE),
  "C05": dict(level="exploration", design="5/C05",
    technique="deterministic simulation family S-C: incremental key vs key recomputed from scratch after every step of three producers, route-independence over recurring positions, toggle sensitivity",
@@ -63,7 +63,7 @@ CHECKS = {
    note="Counts are compared by the from-scratch key of the referee position; zero-count entries are treated as absent."),
  "C11": dict(level="exploration", design="5/C11",
    technique="deterministic simulation family S-B: real search to depth 3 under a scripted clock on generated near-mate positions; oracle = independent AND/OR mate solver on the referee",
-   text="Small positions near mate/stalemate are classified by the solver; a mate in one must be in hand from the end of iteration 1 on, a move into mate in one must not be in hand from the end of iteration 2 on when a safe move exists, every positive mate announcement and every final negative one must be true (verified up to mate in 3). Roots include an enumerated list of mate-in-one positions for every material class of at most four men.",
+   text="Small positions near mate/stalemate are classified by the solver; a mate in one must be in hand from the end of iteration 1 on, a move into mate in one must not be in hand from the end of iteration 2 on when a safe move exists, every positive mate announcement and every final negative one must be true (verified up to mate in 3). Roots include an enumerated list of mate-in-one positions for every material class of at most four men, positions with 132+ legal moves whose mates come late in the move list, and positions whose only mate in one is a castling move.",
    note="Mate claims beyond the solver bound are counted as unverified, never as violations. 'mated in N' on an interim line (best line so far) is not judged; the quantifier is over completed depths."),
  "C12": dict(level="exploration", design="5/C12",
    technique="deterministic simulation family S-B: real search under an unlimited scripted clock vs a plain full-window negamax written in the harness over the engine's own generator and evaluation",
